@@ -10,6 +10,7 @@ import (
 	"os"
 	"sort"
 	"sync"
+	"time"
 )
 
 // Property describes one checkable property. Run executes the cases of one shard inside a
@@ -153,6 +154,8 @@ type Reporter struct {
 	xDistinct  int64
 	sinceFlush int
 	shipped    int
+	curSince   time.Time
+	curOpen    bool
 }
 
 // NewReporter writes the record stream to path (created/truncated... appended when restart).
@@ -172,6 +175,8 @@ func (r *Reporter) write(x rec) {
 func (r *Reporter) Begin(idx int) {
 	r.mu.Lock()
 	r.cur = idx
+	r.curSince = time.Now()
+	r.curOpen = true
 	r.write(rec{K: "B", I: idx})
 	r.mu.Unlock()
 }
@@ -185,6 +190,7 @@ func (r *Reporter) End(idx int, hash string, nontrivial bool) {
 		r.hashes[hash] = struct{}{}
 	}
 	r.write(rec{K: "E", I: idx})
+	r.curOpen = false
 	r.sinceFlush++
 	if r.sinceFlush >= 128 {
 		r.sinceFlush = 0
@@ -303,6 +309,7 @@ func (r *Reporter) Finish() {
 	_ = r.f.Close()
 	r.mu.Unlock()
 }
+
 // Hash returns a short stable hash of the given parts.
 func Hash(parts ...any) string {
 	h := fnv.New64a()
